@@ -389,6 +389,9 @@ func fnFlushAll(ctx *cmdContext, args map[string]any) (output respValue, err err
 	for _, ds := range ctx.cs.dss.allDbs() {
 		if ds == ctx.dsc.ds {
 			ctx.dsc.flush()
+		} else if ctx.txnDsc != nil && ds == ctx.txnDsc.ds {
+			// the data store EXEC has locked (a queued SELECT moved this command to another one)
+			ctx.txnDsc.flush()
 		} else {
 			ds.newDataStoreCommand().flush()
 		}
